@@ -1,4 +1,5 @@
-"""C18 — text parsing is total, faithful and keeps kinds apart, on every usable registered network."""
+"""C18 — text parsing is total, faithful and keeps kinds apart, on every usable registered network and on networks
+configured on another curve."""
 import inspect
 
 from vmon.probe import shard_rng, observe
@@ -37,6 +38,13 @@ RULE = ("one case = (network, text); every case is fed to every single-string en
         "again. Long run: ONE network.parse object asked 2**16+128 times (2**17+128 in thorough) through address, payable and "
         "parse() with distinct valid texts (expected script from the incremental reference), ONE text object asked as often, "
         "returns to texts asked 1 ... 65537 calls ago, invalid texts, WIFs, and the full valid workload at 255 ... 65537. "
+        "Configured curve: three networks built with create_bitcoinish_network(generator=...) (secp256r1 with Bitcoin-like "
+        "prefixes and an HRP; secp256r1 with other prefixes incl. BIP49/84; secp256k1 handed over explicitly as a control), "
+        "every entry point on: public pairs (x,y  x/y  x/even  x,odd; decimal, hex, 0x) of points of the network's own curve, "
+        "of the curve it is NOT on, negated / off by one / unreduced, and x at and between the two field primes; secret "
+        "exponents at and between the two group orders as numbers, reference-built WIFs, E: keys and extended private keys; "
+        "SEC, E: and extended public keys carrying points of the other curve; WIF / SEC / extended-key texts pycoin writes for "
+        "the network's own keys (expected object from the reference curve); the general pair / number / colon classes. "
         "Non-trivial = non-empty text; distinct by (network, text) resp. (network, partner, text).")
 ASSUMPTIONS = [
     "declared prefixes / HRP / SEC tag are read from what the network's public encoders write (address.for_p2pkh / for_p2sh / "
@@ -76,10 +84,19 @@ ASSUMPTIONS = [
     "bip49 / bip84 parsers are documented as 'a seed, a prv or a pub': they are held to that for checksummed text only. A "
     "catch-all given valid checksummed text of a kind it does not dispatch to may return None or the very object the text "
     "denotes (private_key given an xprv), not anything else",
+    "'all networks' includes a network that create_bitcoinish_network builds on the curve handed to it as generator=: its "
+    "parsers are total and faithful like any other's, and 'out-of-range contents' is read on the network's own curve: a key, "
+    "node or wallet a parser returns has 1 <= exponent < order of that curve, a public point on that curve with reduced "
+    "coordinates, equal to exponent x generator (independent arithmetic, vmon/refs/ec.py). A public-pair text whose two "
+    "numbers are spelled without ambiguity (plain decimal, 0x-hex) is, if answered at all, answered with that x and that y / "
+    "parity. Nothing is demanded for a public-pair or number text the parser refuses (None is a legal answer); only text "
+    "written by pycoin's own serialisers for the network's own keys must be accepted. If the key API of such a network is "
+    "itself not on the configured curve the run is inconclusive (nothing about the parsers can be decided)",
 ]
 EXPLANATION = ("total: any exception is a violation; refusal/kind separation: a checksummed-kind parser must return None unless "
                "the independent model decodes the text as that kind, and then the object must carry the model's fields; "
-               "faithful: every returned object is re-serialised and re-parsed and compared field by field")
+               "faithful: every returned object is re-serialised and re-parsed and compared field by field; configured curve: "
+               "the same three clauses on networks living on secp256r1, every returned key checked on the reference curve")
 TIMEOUT = {"quick": 900, "thorough": 3 * 3600}
 
 N = KT.N
@@ -115,7 +132,9 @@ def plan(tier, seed):
     shards = [{"slice": i, "of": k, "scale": 1 if tier == "quick" else 70, "label": "nets%d/%d" % (i, k)} for i in range(k)]
     # one long run on one parse object / one text object (more than 2**16 + 100 uses; 2**17 + 100 in thorough)
     # (about 30 s of CPU in quick; its own watchdog, so that a crowded machine does not cut it short)
-    return [{"longrun": True, "scale": 1 if tier == "quick" else 70, "label": "longrun", "timeout": 3600 if tier == "quick" else 3 * 3600}] + shards
+    # networks configured on another curve than the default one (three small networks, one shard)
+    curves = [{"curves": True, "label": "curves"}]
+    return [{"longrun": True, "scale": 1 if tier == "quick" else 70, "label": "longrun", "timeout": 3600 if tier == "quick" else 3 * 3600}] + curves + shards
 
 
 def selftest(rec):
@@ -199,7 +218,7 @@ def params_of(net):
 
 
 def configurations(tier):
-    return NETS.configurations()
+    return NETS.configurations() + ["networks built on a configured curve: " + ", ".join("%s (%s)" % (c[0], c[1]) for c in CURVE_CONFIGS)]
 
 
 def make_ctx(sym, net):
@@ -1807,11 +1826,351 @@ def shares_prefix_between_kinds(P):
                for i, (a, pa) in enumerate(pf) for b, pb in pf[i + 1:])
 
 
+# ---------------------------------------------------------------------------------------------
+# networks configured on another curve (create_bitcoinish_network(..., generator=...)): "all networks" in the statement
+# includes every legal configuration, and every curve-dependent decision of a parser (coordinate range, point
+# membership, exponent range, SEC decompression, extended-key and electrum key validation) belongs to the network's own
+# curve. The text model of the registered networks is written for secp256k1, so these networks get a small oracle of
+# their own, parametrised by the independent reference curve (vmon/refs/ec.py).
+
+CURVE_CONFIGS = (
+    # label, generator, reference curve of the network, reference of the curve it is not on, builder kwargs
+    ("r1-btc", "secp256r1", "SECP256R1", "SECP256K1",
+     dict(symbol="RAC", network_name="R1coin", subnet_name="mainnet", wif_prefix_hex="80", address_prefix_hex="00",
+          pay_to_script_prefix_hex="05", bip32_prv_prefix_hex="0488ade4", bip32_pub_prefix_hex="0488b21e", bech32_hrp="ra")),
+    ("r1-alt", "secp256r1", "SECP256R1", "SECP256K1",
+     dict(symbol="RBT", network_name="R1coin", subnet_name="testnet", wif_prefix_hex="ef", address_prefix_hex="6f",
+          pay_to_script_prefix_hex="c4", bip32_prv_prefix_hex="04358394", bip32_pub_prefix_hex="043587cf",
+          bip49_prv_prefix_hex="044a4e28", bip49_pub_prefix_hex="044a5262", bip84_prv_prefix_hex="045f18bc",
+          bip84_pub_prefix_hex="045f1cf6")),
+    # control: the same builder and the same oracle with the default curve handed over explicitly
+    ("k1-cfg", "secp256k1", "SECP256K1", "SECP256R1",
+     dict(symbol="KCF", network_name="K1coin", subnet_name="mainnet", wif_prefix_hex="b0", address_prefix_hex="30",
+          pay_to_script_prefix_hex="32", bip32_prv_prefix_hex="019d9cfe", bip32_pub_prefix_hex="019da462", bech32_hrp="kc")),
+)
+CURVE_REQUIRED = (["curve.net." + c[0] for c in CURVE_CONFIGS] +
+                  ["curve.call", "curve.returned", "curve.object_checked_on_reference_curve", "curve.faithful.ok",
+                   "curve.pair.own_point_judged", "curve.pair.own_point_returned", "curve.pair.point_of_other_curve_judged",
+                   "curve.pair.x_between_field_primes_judged", "curve.exponent.between_orders_judged",
+                   "curve.exponent.own_returned", "curve.wif.between_orders_judged", "curve.wif.own_returned",
+                   "curve.sec.point_of_other_curve_judged", "curve.sec.own_returned", "curve.bip32.key_of_other_curve_judged",
+                   "curve.bip32.own_returned", "curve.electrum.key_of_other_curve_judged", "curve.must.judged"])
+_CURVE_NETS = {}
+_CURVE_MUL = {}
+
+
+def curve_context(label):
+    """-> Ctx of the network configured as CURVE_CONFIGS[label] in the tree under test (with .curve / .other = reference
+    curves, .label), or None when that tree's builder does not put the network on the curve it was handed."""
+    if label in _CURVE_NETS:
+        return _CURVE_NETS[label]
+    import importlib
+    from pycoin.networks.bitcoinish import create_bitcoinish_network
+    row = [c for c in CURVE_CONFIGS if c[0] == label][0]
+    gen = getattr(importlib.import_module("pycoin.ecdsa." + row[1]), row[1] + "_generator")
+    kw = dict(row[4])
+    net = create_bitcoinish_network(kw.pop("symbol"), kw.pop("network_name"), kw.pop("subnet_name"), generator=gen, **kw)
+    ctx = make_ctx(row[4]["symbol"], net)
+    ctx.label, ctx.curve, ctx.other = label, getattr(REC, row[2]), getattr(REC, row[3])
+    _CURVE_NETS[label] = ctx
+    return ctx
+
+
+def curve_case(ctx, ep, text, must, expect):
+    c = case_of(ctx, ep, text, must, expect)
+    c["curve"] = ctx.label
+    return c
+
+
+def curve_object_fault(ctx, v, s):
+    """what is wrong with a returned key / node / wallet as an object of a network on ctx.curve, or None."""
+    Cv = ctx.curve
+    if s[0] == "key":
+        se, pair = s[1], s[2]
+    elif s[0] == "electrum":
+        se, pair = s[1], s[2]
+    elif s[0] == "node":
+        se = s[7] if s[2] else None
+        pair = tuple(v.public_pair())
+    else:
+        return None
+    if se is not None and not (isinstance(se, int) and 1 <= se < Cv.n):
+        return "exponent_out_of_range"
+    if not (len(pair) == 2 and all(isinstance(c, int) and 0 <= c < Cv.p for c in pair) and Cv.on_curve(pair)):
+        return "public_point_not_on_the_networks_curve"
+    if se is not None:
+        want = _CURVE_MUL.get((Cv.name, se))
+        if want is None:
+            want = _CURVE_MUL[(Cv.name, se)] = Cv.mul(se, Cv.G)
+        if pair != want:
+            return "public_point_is_not_exponent_times_generator"
+    return None
+
+
+def judge_curve(ctx, ep, text, rec, must=None, expect=None):
+    """one call of one entry point of a curve-configured network: total; the returned object is an object of the
+    network's curve (reference arithmetic); a public-pair text is not answered with another point; pycoin's own text
+    comes back as the object it was made from; faithful."""
+    Cv = ctx.curve
+    fn = ctx.fn[ep]
+    rec.ev("curve.call")
+    rec.ev("curve.parse." + ep)
+    if must:
+        rec.ev("curve.must.judged")
+    st, v = observe(fn, text)
+    if st == "exc":
+        rec.violation("curve.total.%s.%s" % (ep, type(v).__name__), curve_case(ctx, ep, text, must, expect), v, "an object or None")
+        return
+    if v is None:
+        if must:
+            rec.violation("curve.valid.%s_not_parsed_by.%s" % (must, ep), curve_case(ctx, ep, text, must, expect), None,
+                          "the object this text was produced from")
+        return
+    rec.ev("curve.returned")
+    rec.ev("curve.returned." + ep)
+    st, s = observe(sig, v)
+    if st == "exc":
+        rec.violation("curve.%s.returned_object_unusable" % ep, curve_case(ctx, ep, text, must, expect), s, "an object with readable fields")
+        return
+    if s[0] in ("key", "node", "electrum"):
+        rec.ev("curve.object_checked_on_reference_curve")
+        st, fault = observe(curve_object_fault, ctx, v, s)
+        if st == "exc":
+            fault = "public_point_unreadable"
+        if fault:
+            rec.violation("curve.%s.%s" % (ep, fault), curve_case(ctx, ep, text, must, expect), s, "an object of the network's own curve (%s)" % Cv.name)
+            return
+    if expect is not None and must and tuple(expect) != s:
+        rec.violation("curve.valid.%s_parsed_to_other_object.%s" % (must, ep), curve_case(ctx, ep, text, must, expect), s, expect)
+        return
+    if ep == "secret_exponent" and s[0] == "key" and text.isascii() and text.isdigit() and text[:1] != "0" and len(text) < 100 and s[1] != int(text):
+        # a plain decimal numeral denotes that number (same reading as for the registered networks)
+        rec.violation("curve.secret_exponent.decimal_value_differs", curve_case(ctx, ep, text, must, expect), s, ["key", int(text)])
+        return
+    if ep in ("public_pair", "public_key") and s[0] == "key":
+        named = curve_pair_reading(text)
+        if named is not None:
+            x, y = named
+            got = s[2]
+            if got[0] != x or (y in ("even", "odd") and (got[1] & 1) != (y == "odd")) or (isinstance(y, int) and got[1] != y):
+                rec.violation("curve.%s.point_differs_from_text" % ep, curve_case(ctx, ep, text, must, expect), s, [x, y])
+                return
+            rec.ev("curve.pair.value_matches_text")
+    # ---- faithful (the same reading as for the registered networks)
+    st, cands = observe(reserialisations, ep, v, rec)
+    if st == "exc":
+        rec.violation("curve.faithful.%s.reserialise_raises" % ep, curve_case(ctx, ep, text, must, expect), cands, "text")
+        return
+    if not cands:
+        return
+    why, results = None, []
+    for t2, rep in cands:
+        if not isinstance(t2, str):
+            why = why or "reserialise_not_text"
+            results.append([t2, None])
+            continue
+        if rep not in ctx.fn:
+            return
+        if rep == ep and t2 == text:
+            rec.ev("curve.faithful.ok")
+            return
+        st2, w = observe(ctx.fn[rep], t2)
+        if st2 == "exc":
+            why = why or "reparse_raises"
+            results.append([t2, w])
+        elif w is None:
+            why = why or "reparse_none"
+            results.append([t2, None])
+        elif observe(sig, w) != ("ok", s):
+            why = why or "reparse_differs"
+            results.append([t2, observe(sig, w)[1]])
+        else:
+            rec.ev("curve.faithful.ok")
+            return
+    rec.violation("curve.faithful.%s.%s" % (ep, why), curve_case(ctx, ep, text, must, expect), results, s)
+
+
+def curve_pair_reading(text):
+    """(x, y | 'even' | 'odd') when the text is <number><, or /><number | even | odd> with exactly one separator and both
+    numbers spelled without ambiguity (plain decimal without leading zero, or 0x + hex digits), else None."""
+    def num(t):
+        if t.isascii() and t.isdigit() and t[:1] != "0":
+            return int(t)
+        if t[:2] == "0x" and len(t) > 2 and all(ch in HEXD for ch in t[2:]):
+            return int(t[2:], 16)
+        return None
+    seps = [ch for ch in text if ch in ",/"]
+    if len(seps) != 1:
+        return None
+    s0, s1 = text.split(seps[0])
+    x = num(s0)
+    y = s1 if s1 in ("even", "odd") else num(s1)
+    return None if x is None or y is None else (x, y)
+
+
+def curve_pair_spellings(x, y):
+    par, rap = ("odd", "even") if y & 1 else ("even", "odd")
+    return ["%d,%d" % (x, y), "%d/%d" % (x, y), "%x,%x" % (x, y), "%x/%x" % (x, y), "0x%x,0x%x" % (x, y), "0x%x/%d" % (x, y),
+            "%d/%s" % (x, par), "%d,%s" % (x, rap), "%x/%s" % (x, rap), "0x%x,%s" % (x, par)]
+
+
+def curve_workload(ctx, rng, scale):
+    """-> rows (class, text, entry points that must accept or None, label, expected signature, counters)."""
+    Cv, Co, P = ctx.curve, ctx.other, ctx.params
+    net = ctx.net
+    rows = []
+
+    def add(cls, text, must_eps=None, must=None, expect=None, evs=()):
+        rows.append((cls, text, must_eps, must, expect, tuple(evs)))
+
+    lo_n, hi_n = sorted((Cv.n, Co.n))
+    lo_p, hi_p = sorted((Cv.p, Co.p))
+    own_es = [1, 2, Cv.n - 1] + [rng.randrange(1, Cv.n) for _ in range(2 * scale)]
+    oth_es = [1, 2, 3, Co.n - 1] + [rng.randrange(1, Co.n) for _ in range(2 * scale)]
+    # ---- public pairs
+    for e in own_es:
+        pt = Cv.mul(e, Cv.G)
+        for t in curve_pair_spellings(*pt):
+            add("curve.pair.own_point", t, evs=["curve.pair.own_point_judged"])
+        add("curve.pair.own_point_negated", "%d,%d" % (pt[0], Cv.p - pt[1]))
+        add("curve.pair.own_point_off_by_one", "%d,%d" % (pt[0], pt[1] ^ 1))
+        add("curve.pair.own_point_unreduced", "%d,%d" % (pt[0] + Cv.p, pt[1]))
+        add("curve.pair.own_point_unreduced", "%d/%s" % (pt[0] + Cv.p, "odd" if pt[1] & 1 else "even"))
+    for e in oth_es:
+        pt = Co.mul(e, Co.G)
+        if Cv.on_curve(pt):
+            continue
+        for t in curve_pair_spellings(*pt):
+            add("curve.pair.point_of_other_curve", t, evs=["curve.pair.point_of_other_curve_judged"])
+    xs = [lo_p - 1, lo_p, lo_p + 1, hi_p - 1, hi_p, hi_p + 1] + [rng.randrange(lo_p, hi_p) for _ in range(3 * scale)]
+    for x in xs:
+        ev = ["curve.pair.x_between_field_primes_judged"] if lo_p <= x < hi_p else []
+        for par in ("even", "odd"):
+            add("curve.pair.x_at_field_prime", "%d/%s" % (x, par), evs=ev)
+            add("curve.pair.x_at_field_prime", "%x,%s" % (x, par), evs=ev)
+        for C2 in (Cv, Co):
+            pts = C2.lift_x(x % C2.p)
+            if pts:
+                add("curve.pair.x_at_field_prime", "%d,%d" % (x, pts[0][1]), evs=ev)
+                add("curve.pair.x_at_field_prime", "%d/%d" % (pts[1][0], x), evs=ev)
+    # ---- secret exponents: numbers, WIF, electrum, extended private keys around both group orders
+    es = [0, 1, lo_n - 1, lo_n, lo_n + 1, hi_n - 1, hi_n, hi_n + 1, 2 ** 256 - 1] + [rng.randrange(lo_n, hi_n) for _ in range(3 * scale)]
+    chain = rbytes(rng, 32)
+    for e in es:
+        between = lo_n <= e < hi_n
+        for t in ("%d" % e, "%x" % e, "0x%x" % e):
+            add("curve.exponent.number", t, evs=["curve.exponent.between_orders_judged"] if between else [])
+        add("curve.exponent.electrum", "E:%064x" % e, evs=["curve.electrum.key_of_other_curve_judged"] if between else [])
+        if P.wif is not None:
+            for comp in (True, False):
+                add("curve.exponent.wif", KT.wif_text(P, e, comp), evs=["curve.wif.between_orders_judged"] if between else [])
+        for k in KT.BIP_KINDS:
+            if k.endswith("_prv") and P.prefix(k) is not None:
+                add("curve.exponent.%s" % k, RB.encode_check(P.prefix(k) + KT.node_blob(1, b"\x01\x02\x03\x04", 5, chain, se=e)),
+                    evs=["curve.bip32.key_of_other_curve_judged"] if between else [])
+    # ---- public keys of the other curve in SEC, extended public keys, electrum public keys
+    for e in oth_es:
+        pt = Co.mul(e, Co.G)
+        if Cv.on_curve(pt):
+            continue
+        for comp in (True, False):
+            sec = KT.sec_of(pt, comp)
+            add("curve.sec.point_of_other_curve", sec.hex(), evs=["curve.sec.point_of_other_curve_judged"])
+            if P.sec_prefix:
+                add("curve.sec.point_of_other_curve", P.sec_prefix + sec.hex(), evs=["curve.sec.point_of_other_curve_judged"])
+        add("curve.electrum.point_of_other_curve", "E:%064x%064x" % pt, evs=["curve.electrum.key_of_other_curve_judged"])
+        for k in KT.BIP_KINDS:
+            if k.endswith("_pub") and P.prefix(k) is not None:
+                add("curve.%s.point_of_other_curve" % k, RB.encode_check(P.prefix(k) + KT.node_blob(2, b"\x0a\x0b\x0c\x0d", 7, chain, point=pt)),
+                    evs=["curve.bip32.key_of_other_curve_judged"])
+    # ---- the network's own objects, serialised by pycoin: must come back as the same object (reference point)
+    for e in own_es:
+        pt = Cv.mul(e, Cv.G)
+        for comp in (True, False):
+            st, k = observe(net.keys.private, e, is_compressed=comp)
+            if st == "exc":
+                add("curve.own_key_refused_by_key_api", "%d" % e)          # not a parser: nothing to demand of it here
+                continue
+            want_prv = ("key", e, pt, comp)
+            want_pub = ("key", None, pt, comp)
+            if P.wif is not None:
+                add("curve.valid.wif", k.wif(), ("wif", "private_key", "secret", "__call__"), "wif_text", want_prv, ["curve.wif.own_returned"])
+            pub = k.public_copy()
+            add("curve.valid.sec_text", pub.as_text(), ("sec", "public_key"), "sec_text", want_pub, ["curve.sec.own_returned"])
+            add("curve.valid.sec_hex", pub.sec().hex(), ("sec", "public_key"), "sec_hex", want_pub, ["curve.sec.own_returned"])
+        add("curve.exponent.own", "%d" % e)
+        add("curve.electrum.own_point", "E:%064x%064x" % pt)
+        add("curve.electrum.own_exponent", "E:%064x" % e)
+    for i in range(1 + scale):
+        m = net.keys.bip32_seed(rbytes(rng, 16))
+        node = m if i == 0 else m.subkey_for_path(rng.choice(["0", "1H", "44H/0H/0H/1/7", "2147483647H/2147483647"]))
+        blob = node.serialize(as_private=True)
+        fams = [("bip32", node)]
+        for fam in ("bip49", "bip84"):
+            if P.prefix(fam + "_prv") is not None and P.prefix(fam + "_pub") is not None:
+                fams.append((fam, getattr(net.keys, fam + "_deserialize")(b"\0\0\0\0" + blob)))
+        for fam, nd in fams:
+            if P.prefix(fam + "_prv") is None or P.prefix(fam + "_pub") is None:
+                continue
+            add("curve.valid.%s_prv" % fam, nd.hwif(as_private=True), (fam + "_prv", fam, "hierarchical_key", "secret", "__call__"),
+                fam + "_prv_text", sig(nd), ["curve.bip32.own_returned"])
+            add("curve.valid.%s_pub" % fam, nd.hwif(as_private=False), (fam + "_pub", fam, "hierarchical_key", "__call__"),
+                fam + "_pub_text", sig(nd.public_copy()), ["curve.bip32.own_returned"])
+    # ---- the general text classes of the registered networks (total, object on the curve, faithful)
+    for wl in ((pair_workload, number_workload, colon_workload) if (scale > 1 or ctx.label == CURVE_CONFIGS[0][0]) else ()):
+        for cls, t in wl(ctx, rng, 1):
+            if cls == "colon.E.hex" and len(t) == 34:
+                continue                                   # the 100,000-round key stretch: driven on the registered networks
+            add("curve.general." + cls, t)
+    return rows
+
+
+CURVE_PAIR_EPS = ("public_pair", "public_key", "__call__")
+
+
+def run_curves(spec, rec):
+    import contextlib
+    import io
+    scale = 1 if spec.get("tier") == "quick" else 8
+    for label in [c[0] for c in CURVE_CONFIGS]:
+        with contextlib.redirect_stdout(io.StringIO()):
+            st, ctx = observe(curve_context, label)
+            if st == "exc":
+                rec.ev("inconclusive:curve_network_cannot_be_built")
+                rec.note("create_bitcoinish_network(generator=...) failed for %s: %r" % (label, ctx))
+                continue
+            st, one = observe(lambda: tuple(ctx.net.keys.private(1).public_pair()))
+            if st == "exc" or one != ctx.curve.G:
+                # the key API itself is not on the curve that was handed over: no statement about the parsers can be decided
+                rec.ev("inconclusive:curve_network_keys_not_on_configured_curve")
+                rec.note("network %s: keys.private(1).public_pair() is not the generator of %s" % (label, ctx.curve.name))
+                continue
+            rec.ev("curve.net." + label)
+            rng = shard_rng(spec["seed"], PROPERTY, spec["tier"], "curve", label)
+            for cls, text, must_eps, must, expect, evs in curve_workload(ctx, rng, scale):
+                rec.case((ctx.sym, "curve", text), nontrivial=len(text) > 0, n=1)
+                rec.ev("class." + cls)
+                for e in evs:
+                    rec.ev(e)
+                for ep in ctx.eps:
+                    m = must if (must_eps and ep in must_eps) else None
+                    before = rec.counters.get("curve.returned." + ep, 0)
+                    judge_curve(ctx, ep, text, rec, must=m, expect=expect if m else None)
+                    if rec.counters.get("curve.returned." + ep, 0) > before:
+                        if cls == "curve.pair.own_point" and ep == "public_pair":
+                            rec.ev("curve.pair.own_point_returned")
+                        elif cls == "curve.exponent.own" and ep == "secret_exponent":
+                            rec.ev("curve.exponent.own_returned")
+
+
 def run_shard(spec, rec):
     import contextlib
     import io
     if spec.get("longrun"):
         return run_longrun(spec, rec)
+    rec.require(*CURVE_REQUIRED)
+    if spec.get("curves"):
+        return run_curves(spec, rec)
     good, skipped = usable_networks()
     NETS.require_registry(rec, good, skipped)
     mine = good[spec["slice"]::spec["of"]]
@@ -1865,6 +2224,15 @@ def replay_case(case, rec):
         import io
         with contextlib.redirect_stdout(io.StringIO()):
             play_history(case["reuse"], case["maker"], text, [tuple(x) for x in case["steps"]], rec)
+        return
+    if case.get("curve"):
+        if isinstance(text, bytes):
+            text = "x:" + text.hex()
+        text = str(text)
+        text = text[2:] if text.startswith("t:") else text
+        expect = case.get("expect")
+        judge_curve(curve_context(str(case["curve"])), case["ep"], text, rec, must=case.get("must"),
+                    expect=_restore_sig(expect) if expect is not None else None)
         return
     net = network_for_netcode(case["net"])
     ctx = make_ctx(case["net"], net)
